@@ -309,31 +309,118 @@ theorem check_for_errors_iff (E : Env) (l : MemLogger) (h : l.tracebacks = []) :
     checkForErrors E l = .ok () ↔ ∀ w ∈ l.messages, memValidate E w.ser w.msg = .ok () := by
   simp [checkForErrors, h, validateAll_iff]
 
+/-! ## A logger's history: `validate()` and `reset()` -/
+
+theorem memValidateS_fst (E : Env) (ser : Option Serializer) (m : Msg) : (memValidateS E ser m).1 = memValidate E ser m := by
+  unfold memValidateS memValidate
+  split
+  · rfl
+  · split
+    · rfl
+    · split
+      · rfl
+      · split <;> rfl
+
+/-- Whatever `validate()` leaves in the stored messages, what it *raises* is decided by the stored
+messages alone, first failure first. -/
+theorem validateAllS_fst (E : Env) : ∀ ws : List Written, (validateAllS E ws).1 = validateAll E ws
+  | [] => rfl
+  | w :: ws => by
+    unfold validateAllS validateAll
+    simp only [memValidateS_fst]
+    cases h : memValidate E w.ser w.msg with
+    | error e => rfl
+    | ok u => simp only [validateAllS_fst E ws]
+
+theorem messages_foldl_write (E : Env) : ∀ (ws : List Written) (l : MemLogger),
+    (ws.foldl (fun l w => l.write E w) l).messages = l.messages ++ ws
+  | [], l => by simp
+  | w :: ws, l => by
+    simp only [List.foldl_cons]
+    rw [messages_foldl_write E ws]
+    simp [MemLogger.write]
+
+/-- `reset()` really starts over: whatever was written, validated or reset before, a message written
+after a `reset()` that does not validate makes the next `validate()` raise. -/
+theorem invalid_after_reset_reported (E : Env) (l : MemLogger) (ws : List Written) (w : Written)
+    (hw : w ∈ ws) (hbad : memValidate E w.ser w.msg ≠ .ok ()) :
+    ((ws.foldl (fun l w => l.write E w) l.reset).step E .validate).2 ≠ some (.ok ()) := by
+  simp only [MemLogger.step, messages_foldl_write, MemLogger.reset, List.nil_append, validateAllS_fst]
+  intro h
+  have h' : validateAll E ws = .ok () := by simpa using h
+  exact hbad ((validateAll_iff E ws).mp h' w hw)
+
 /-! ## `default_logger_restored` -/
 
-/-- Running the wrapped method leaves a cleanup stack whose execution ends where the execution of
-the stack before it would have ended. -/
-theorem exec_cleanups : ∀ (t : Test) (s : St),
-    runCleanups (exec t s).cleanups (exec t s).default = runCleanups s.cleanups s.default
-  | .body _, s => by simp [exec]
+/-- the wrapped method only ever pushes cleanups -/
+theorem exec_cleanups_suffix : ∀ (t : Test) (s : St), ∃ pre, (exec t s).cleanups = pre ++ s.cleanups
+  | .body _, s => ⟨[], by simp [exec]⟩
+  | .swaps rest, s => by
+    rw [exec]
+    exact exec_cleanups_suffix rest _
   | .captured t, s => by
-    rw [exec, exec_cleanups t]
-    simp [runCleanups]
+    rw [exec]
+    obtain ⟨pre, h⟩ := exec_cleanups_suffix t
+      { s with default := s.fresh, fresh := s.fresh + 1, cleanups := .restore s.default :: .check s.fresh :: s.cleanups }
+    exact ⟨pre ++ [.restore s.default, .check s.fresh], by rw [h]; simp⟩
   | .inner t rest, s => by
-    rw [exec, exec_cleanups rest]
+    rw [exec]
+    exact exec_cleanups_suffix rest _
+
+theorem runCleanups_append_restore : ∀ (pre rest : List Cleanup) (p x : Nat),
+    runCleanups (pre ++ .restore p :: rest) x = runCleanups rest p
+  | [], rest, p, x => by simp [runCleanups]
+  | .restore q :: pre, rest, p, x => by
+    simp only [List.cons_append, runCleanups]
+    exact runCleanups_append_restore pre rest p q
+  | .check q :: pre, rest, p, x => by
+    simp only [List.cons_append, runCleanups]
+    exact runCleanups_append_restore pre rest p x
+
+/-- **`capture_logging` always restores the previous default logger**: whatever the outcome(s) of the
+decorated test, however `capture_logging` is nested inside it, whatever inner test cases its body runs,
+and even when the body (or an inner test) replaces the default logger itself and never puts it back. -/
+theorem default_logger_restored (t : Test) (d fresh : Nat) (seen : List Nat) :
+    (runCase (.captured t) d fresh seen).default = d := by
+  rw [runCase]
+  simp only
+  rw [exec]
+  simp only
+  obtain ⟨pre, h⟩ := exec_cleanups_suffix t
+    { default := fresh, fresh := fresh + 1, cleanups := [.restore d, .check fresh], seen := seen }
+  rw [h, runCleanups_append_restore]
+  simp [runCleanups]
+
+def Test.noSwaps : Test → Bool
+  | .body _ => true
+  | .swaps _ => false
+  | .captured t => t.noSwaps
+  | .inner t rest => t.noSwaps && rest.noSwaps
+
+/-- Running a wrapped method that does not touch the default logger itself leaves a cleanup stack
+whose execution ends where the execution of the stack before it would have ended. -/
+theorem exec_cleanups : ∀ (t : Test) (s : St), t.noSwaps = true →
+    runCleanups (exec t s).cleanups (exec t s).default = runCleanups s.cleanups s.default
+  | .body _, s, _ => by simp [exec]
+  | .swaps _, s, h => by simp [Test.noSwaps] at h
+  | .captured t, s, h => by
+    rw [exec, exec_cleanups t _ (by simpa [Test.noSwaps] using h)]
+    simp [runCleanups]
+  | .inner t rest, s, h => by
+    simp only [Test.noSwaps, Bool.and_eq_true] at h
+    rw [exec, exec_cleanups rest _ h.2]
     simp only
     rw [runCase]
     simp only
-    rw [exec_cleanups t]
+    rw [exec_cleanups t _ h.1]
     simp [runCleanups]
 
-/-- Whatever the test's outcome(s), however `capture_logging` is nested and whatever inner test
-cases its body runs: after the test case the default logger is the one before it. -/
-theorem default_logger_restored (t : Test) (d fresh : Nat) (seen : List Nat) :
+/-- Any test case, decorated or not, whose bodies leave the default logger alone, leaves it as it was. -/
+theorem default_logger_untouched (t : Test) (h : t.noSwaps = true) (d fresh : Nat) (seen : List Nat) :
     (runCase t d fresh seen).default = d := by
   rw [runCase]
   simp only
-  rw [exec_cleanups t]
+  rw [exec_cleanups t _ h]
   simp [runCleanups]
 
 /-! ## Non-vacuity -/
@@ -350,5 +437,12 @@ example : memValidate exEnv (some exSer) (exMsg.set "zz" (.int 1)) = .error .val
 example : memValidate exEnv (some exSer) (exMsg.set "timestamp" (.obj 7 false)) = .error .typeError := by rfl
 example : (runCase (.captured (.inner (.captured (.captured (.body .fail))) (.captured (.body .skip)))) 0 1 []).seen = [3, 4] := by
   simp [runCase, exec, runCleanups]
+-- the body installs its own logger (2) and fails: the cleanup still brings back 0
+example : (exec (.captured (.swaps (.body .fail))) { default := 0, fresh := 1, cleanups := [] }).default = 2
+    ∧ (runCase (.captured (.swaps (.body .fail))) 0 1 []).default = 0 := by
+  simp [runCase, exec, runCleanups]
+-- validate, reset, then an invalid message: reported
+example : (MemLogger.run exEnv {} [.write ⟨exMsg, some exSer, false⟩, .validate, .reset,
+    .write ⟨exMsg.del "x", some exSer, false⟩, .validate]).2 = [.ok (), .error .validationError] := by rfl
 
 end VM
